@@ -105,6 +105,7 @@ type H1Cfg struct {
 	StaticLabels   [][2]string       `json:"static_labels,omitempty"`
 	Runs           int               `json:"runs,omitempty"`          // consecutive runs on one metrics instance
 	SameScenario   bool              `json:"same_scenario,omitempty"` // ... all of the same scenario name
+	Run2Plain      bool              `json:"run2_plain,omitempty"`    // runs after the first leave every limit at its default (flags omitted)
 	MemProfile     bool              `json:"memprofile,omitempty"`    // driver f1: pass --memprofile
 	C03Overload    bool              `json:"c03_overload,omitempty"`
 	Prog           ScenarioProg      `json:"prog"`
@@ -286,6 +287,16 @@ func (h1) Decode(raw json.RawMessage) (any, error) {
 // order of two timers due at the same instant is the one thing the simulator does not control (DESIGN §2.3):
 // runs that reach the one-minute mark are explored and judged (the oracles do not depend on that order) but are
 // excluded from the replay-exactness accounting.
+// forRun returns the configuration in force for run i of the simulated process.
+func (c *H1Cfg) forRun(i int) *H1Cfg {
+	if i == 0 || !c.Run2Plain {
+		return c
+	}
+	cc := *c
+	cc.MaxIterations, cc.MaxFailures, cc.MaxFailRate, cc.IgnoreDropped = 0, 0, 0, false
+	return &cc
+}
+
 func (h1) Ties(cfg any) bool {
 	c := cfg.(*H1Cfg)
 	return c.MaxDurationNs >= int64(59*time.Second)
@@ -599,6 +610,10 @@ func (h h1) Gen(prop, tier string, r *simrt.Rng) (any, simrt.Config) {
 	}
 	if c.Driver == "f1" {
 		c.CancelAtNs, c.CancelAtStep, c.CancelAtSite, c.Runs = 0, 0, "", 1
+		if prop == "C08" && r.Intn(3) == 0 {
+			// one F1 instance executed twice, the second time without the limits of the first
+			c.Runs, c.SameScenario, c.Run2Plain = 2, r.Intn(2) == 0, true
+		}
 		c.Verbose, c.Interactive = true, false
 		if prop == "C16" {
 			c.Metrics, c.StaticLabels = true, nil // the global instance was initialised with iteration metrics on, no static labels
